@@ -270,7 +270,7 @@ func runC03(rc *fw.RunCtx) {
 	// evaluation on the same VM (and for several goroutines importing different
 	// modules through one importer at the same time)
 	for i := 0; i < 6; i++ {
-		sfs.Files[fmt.Sprintf("okmod%d.risor", i)] = fmt.Sprintf("v := %d\nfunc get() { return v }\n", i)
+		sfs.Files[fmt.Sprintf("okmod%d.risor", i)] = fmt.Sprintf("%sv := %d\nfunc get() { return v }\n", []string{"", "    ", "\n  "}[i%3], i)
 	}
 	if g.Chance(1, 3) {
 		rc.Hit("shape_lingering_importers")
@@ -338,6 +338,14 @@ func runC03(rc *fw.RunCtx) {
 	}
 	ropts := append(append([]risor.Option{}, opts...), risor.WithVM(machine))
 	ctx1, cancel1 := context.WithCancel(context.Background())
+	if f.Chance(1, 12) {
+		// the host's script text is indented, as when it was cut out of a
+		// larger document, and the context is over before the call is made:
+		// the parser is the first to notice
+		src = "    " + strings.ReplaceAll(src, "\n", "\n    ")
+		rc.Hit("fault_cancelled_before_parse")
+		cancel1()
+	}
 	var cancel2 context.CancelFunc = func() {}
 	ctxMain := ctx1
 	if f.Chance(1, 6) {
